@@ -100,12 +100,11 @@ Section Top.
     let x := inside ts vs s e in
     let n' := resolve_n K n x in
     let X := dft (crop_pad (f0 K) n' x) in
-    (0 < fs)%Q -> (0 < n')%nat -> (eps6 < fs / inject_Z (2 * Z.of_nat n'))%Q ->
     psd K dft ts vs s e fs full n
     = map (fun k => (k, let p := psd_scale K fs n' * norm2 K (coef K n' X k) in
                         if full then p else if k =? 0 then p else two K * p)) (krange full n').
   Proof.
-    intros HL Hs Hse Hlen x n' X Hfs Hn Heps.
+    intros HL Hs Hse Hlen x n' X.
     pose proof (compute_fft_spec ts vs s e full false (Some n') HL Hs Hse Hlen) as E.
     cbv zeta in E. cbn [resolve_n] in E. fold x in E. fold X in E.
     unfold psd. cbv zeta.
@@ -114,7 +113,7 @@ Section Top.
     destruct full.
     - reflexivity.
     - unfold double_rows. rewrite map_map. cbn [fst snd]. apply map_ext_in. intros k Hk. unfold krange in Hk.
-      rewrite (doubled_onesided fs n' k Hfs Hn Heps Hk). destruct (k =? 0); reflexivity.
+      rewrite (doubled_onesided n' k Hk). destruct (k =? 0); reflexivity.
   Qed.
 
   Lemma psd_full_table ts vs s e fs n :
@@ -168,13 +167,13 @@ Section Top.
     let n' := resolve_n K n x in
     let X := dft (crop_pad (f0 K) n' x) in
     let P := map (fun z => psd_scale K fs n' * norm2 K z) X in
-    (0 < fs)%Q -> (0 < n')%nat -> (eps6 < fs / inject_Z (2 * Z.of_nat n'))%Q ->
+    (0 < n')%nat ->
     length P = n' /\
     (forall i, (i < n')%nat -> nth i P (f0 K) = psd_scale K fs n' * norm2 K (nth i X (c0 K))) /\
     fsum K (map snd (psd K dft ts vs s e fs true n)) = fsum K P /\
     fsum K (map snd (psd K dft ts vs s e fs false n)) = onesided_total K P.
   Proof.
-    intros HL Hs Hse Hlen x n' X P Hfs Hn Heps.
+    intros HL Hs Hse Hlen x n' X P Hn.
     assert (HX : length X = n') by (unfold X; rewrite HL; apply crop_pad_length).
     assert (HPl : length P = n') by (unfold P; rewrite map_length; exact HX).
     assert (HPn : forall i, (i < n')%nat -> nth i P (f0 K) = psd_scale K fs n' * norm2 K (nth i X (c0 K))).
@@ -188,7 +187,7 @@ Section Top.
         by (rewrite SpectrumIndexProofs.fftfreq_idx_length; congruence).
       rewrite map_map. reflexivity.
     - pose proof (psd_spec ts vs s e fs false n HL Hs Hse Hlen) as E. cbv zeta in E.
-      fold x in E. fold n' in E. fold X in E. rewrite (E Hfs Hn Heps). clear E.
+      fold x in E. fold n' in E. fold X in E. rewrite E. clear E.
       rewrite map_map. cbn [fst snd]. unfold krange.
       pose proof (half_pos n' Hn) as Hq. pose proof (half_le n' Hn) as Hq'.
       unfold onesided_total. rewrite HPl.
@@ -204,13 +203,12 @@ Section Top.
     length_law K dft -> sortedZ ts -> s < e -> length vs = length ts ->
     let x := inside ts vs s e in
     let n' := resolve_n K n x in
-    hermitian_at K dft (crop_pad (f0 K) n' x) -> (0 < fs)%Q -> n' = (2 * m + 1)%nat ->
-    (eps6 < fs / inject_Z (2 * Z.of_nat n'))%Q ->
+    hermitian_at K dft (crop_pad (f0 K) n' x) -> n' = (2 * m + 1)%nat ->
     fsum K (map snd (psd K dft ts vs s e fs false n)) = fsum K (map snd (psd K dft ts vs s e fs true n)).
   Proof.
-    intros HL Hs Hse Hlen x n' Hh Hfs Hm Heps.
+    intros HL Hs Hse Hlen x n' Hh Hm.
     assert (Hn : (0 < n')%nat) by lia.
-    destruct (psd_sums ts vs s e fs n HL Hs Hse Hlen Hfs Hn Heps) as (HPl & HPn & E1 & E2).
+    destruct (psd_sums ts vs s e fs n HL Hs Hse Hlen Hn) as (HPl & HPn & E1 & E2).
     fold x in HPl, HPn, E1, E2. fold n' in HPl, HPn, E1, E2.
     rewrite E1, E2. apply (onesided_total_odd K Fth _ m).
     - rewrite HPl. exact Hm.
@@ -222,14 +220,13 @@ Section Top.
     let x := inside ts vs s e in
     let n' := resolve_n K n x in
     let X := dft (crop_pad (f0 K) n' x) in
-    hermitian_at K dft (crop_pad (f0 K) n' x) -> (0 < fs)%Q -> n' = (2 * m)%nat -> (0 < m)%nat ->
-    (eps6 < fs / inject_Z (2 * Z.of_nat n'))%Q ->
+    hermitian_at K dft (crop_pad (f0 K) n' x) -> n' = (2 * m)%nat -> (0 < m)%nat ->
     fsum K (map snd (psd K dft ts vs s e fs false n))
     = fsum K (map snd (psd K dft ts vs s e fs true n)) - psd_scale K fs n' * norm2 K (nth m X (c0 K)).
   Proof.
-    intros HL Hs Hse Hlen x n' X Hh Hfs Hm Hmpos Heps.
+    intros HL Hs Hse Hlen x n' X Hh Hm Hmpos.
     assert (Hn : (0 < n')%nat) by lia.
-    destruct (psd_sums ts vs s e fs n HL Hs Hse Hlen Hfs Hn Heps) as (HPl & HPn & E1 & E2).
+    destruct (psd_sums ts vs s e fs n HL Hs Hse Hlen Hn) as (HPl & HPn & E1 & E2).
     fold x in HPl, HPn, E1, E2. fold n' in HPl, HPn, E1, E2. fold X in HPl, HPn, E1, E2.
     rewrite E1, E2. rewrite <- (HPn m) by lia. apply (onesided_total_even K Fth _ m).
     - rewrite HPl. exact Hm.
@@ -255,16 +252,14 @@ Section Top.
   Qed.
   Theorem mean_psd_spec ts vs ep L st fs full rows :
     length_law K dft -> (forall N, length (window N) = N) -> sortedZ ts -> length vs = length ts ->
-    (0 < fs)%Q ->
     mean_psd K dft window ts vs ep L st fs full = Some rows ->
     let ch := chunks K ts vs ep L st in
     exists N, ch <> [] /\ (0 < N)%nat /\ Forall (fun c => (N <= length c)%nat) ch /\ (exists c, In c ch /\ length c = N) /\
-      ((eps6 < fs / inject_Z (2 * Z.of_nat N))%Q ->
-       rows = map (fun k => (k, let avg := fsum K (map (fun c => nth (Z.to_nat (k mod Z.of_nat N)) (periodogram K dft window fs N c) (f0 K)) ch)
+      (rows = map (fun k => (k, let avg := fsum K (map (fun c => nth (Z.to_nat (k mod Z.of_nat N)) (periodogram K dft window fs N c) (f0 K)) ch)
                                            / ofnat K (length ch) in
                                 if full then avg else if k =? 0 then avg else two K * avg)) (krange full N)).
   Proof.
-    intros HL HW Hs Hlen Hfs Hm ch.
+    intros HL HW Hs Hlen Hm ch.
     unfold mean_psd in Hm. destruct (mean_plan ts ep L st) as [[N sl]|] eqn:Ep; [|discriminate].
     destruct (mean_plan_spec _ _ _ _ _ _ Ep) as (Hsl & Hne & HN & Hpos).
     cbv zeta in Hm. injection Hm as Hrows.
@@ -284,8 +279,7 @@ Section Top.
       exists (inside ts vs a b). split.
       + unfold ch, chunks. apply in_map_iff. exists (a, b); auto.
       + rewrite chunk_len by auto. rewrite Hab'. exact Hab.
-    - intros Heps.
-      set (pers := map (periodogram K dft window fs N) ch) in *.
+    - set (pers := map (periodogram K dft window fs N) ch) in *.
       assert (HFp : Forall (fun l => length l = N) pers).
       { unfold pers. apply Forall_forall. intros l Hl. apply in_map_iff in Hl. destruct Hl as (c & Hl & Hc). subst l.
         unfold periodogram. rewrite map_length, HL, map2_length, firstn_length, HW.
@@ -302,7 +296,7 @@ Section Top.
       rewrite <- Hrows. unfold krange. destruct full.
       + rewrite (fft_table_spec (f0 K) N avg Havg). apply map_ext_in. intros k Hk. f_equal. apply Hnth.
         pose proof (Z.mod_pos_bound k (Z.of_nat N) ltac:(lia)). lia.
-      + rewrite (double_rows_onesided (fun p => two K * p) (f0 K) fs N avg Hfs Hpos Heps Havg).
+      + rewrite (double_rows_onesided (fun p => two K * p) (f0 K) N avg Havg).
         apply map_ext_in. intros k Hk. apply zrange_in in Hk. pose proof (half_le N Hpos).
         rewrite Z.mod_small by lia. rewrite Hnth by lia. reflexivity.
   Qed.
